@@ -57,6 +57,7 @@ inductive Op | lt | le | gt | ge | eq | ne
 structure Field where
   sec : String
   path : String
+  key : String            -- last component of the path (the JSON key itself)
   env : String
   ty : Ty
   omitEmpty : Bool
